@@ -445,3 +445,61 @@ def rule_function_labels(repo: Repo, chk: Check, rule: str):
                 ok = bool(ds) and all(d.kind == "assign" and isinstance(d.value, ast.Call) and norm(d.value.func).endswith("get_label") for d in ds)
         chk.judge(rule, f"generate_code:{s.qual}:jal target {norm(arg) if arg is not None else '?'}", ok,
                   "the call target is neither a generated label nor the transformed qualified function name", None, s.where())
+
+
+# ------------------------------------------------------------------ R02.d / R06.a roles
+_ROLE_CACHE = {}
+
+
+def convention_roles(repo: Repo):
+    """{(role, uses_push_pop): [sites]} for the four roles of the calling convention."""
+    from ..emit import collect_sites
+    if id(repo) in _ROLE_CACHE:
+        return _ROLE_CACHE[id(repo)]
+    g = repo.mod("generate_code")
+    hs = repo.handlers()
+    for need in ("Call", "Return"):
+        if need not in hs:
+            raise AnalysisError(f"no handler registered for nodes.{need}")
+    fns = {
+        "caller": g.func(f"{GEN_CLASS}.{hs['Call']}"),
+        "callee": g.func(f"{GEN_CLASS}.compile_function"),
+        "return": g.func(f"{GEN_CLASS}.{hs['Return']}"),
+    }
+    table = {
+        ("caller-arg", True): ("caller", "push"), ("caller-arg", False): ("caller", "put"),
+        ("callee-arg", True): ("callee", "pop"), ("callee-arg", False): ("callee", "get"),
+        ("callee-result", True): ("return", "push"), ("callee-result", False): ("return", "put"),
+        ("caller-result", True): ("caller", "pop"), ("caller-result", False): ("caller", "get"),
+    }
+    sites = collect_sites(repo, ["generate_code"])
+    out = {k: [] for k in table}
+    for s in sites:
+        if s.opcodes is TOP or len(s.opcodes) != 1:
+            continue
+        op = next(iter(s.opcodes))
+        for (role, conv), (who, want) in table.items():
+            if s.fn is fns[who] and op == want:
+                cfg, rd = fn_ctx(s.fn)
+                ids = live_ids(cfg, s.call)
+                pol = None
+                for t, p in (guard_atoms(cfg, ids[0]) if ids else []):
+                    if norm(t).endswith("use_push_pop_functions"):
+                        pol = p
+                if pol is conv:
+                    out[(role, conv)].append(s)
+    _ROLE_CACHE[id(repo)] = out
+    return out
+
+
+def rule_convention_roles(repo: Repo, chk: Check, rule: str):
+    roles = convention_roles(repo)
+    g = repo.mod("generate_code")
+    for (role, conv), sites in sorted(roles.items(), key=lambda kv: (kv[0][0], kv[0][1])):
+        name = "push/pop" if conv else "fixed slots"
+        for s in sites:
+            chk.saw("generate_code", s.qual)
+        chk.judge(rule, f"generate_code:convention role {role} under {name}", len(sites) >= 1,
+                  f"no emission site for the role '{role}' under the {name} convention (guarded by use_push_pop_functions "
+                  f"{'true' if conv else 'false'}): with that option the value is never transferred",
+                  {"sites": [norm(s.call)[:70] for s in sites]}, str(g.path))
